@@ -179,3 +179,42 @@ func ZZ_C06_DynamicBinding() {
 	}
 	zz.Reach("end")
 }
+
+// ZZ_C06_EffectiveRunMode: which deduplication a task gets is decided by its own run: when it
+// has one (also when that is `always`) and by the Taskfile's otherwise; the key of the
+// execution is empty for always, the same for all bindings for once, and different for
+// different bindings for when_changed.
+func ZZ_C06_EffectiveRunMode() {
+	taskRun := zzRunModes[zz.Choose("run_of_the_task", 4)]
+	fileRun := zzRunModes[1+zz.Choose("run_of_the_taskfile", 3)] // (setup turns an unset one into always)
+	v1, v2 := zz.Str("v1", 1, "ab"), zz.Str("v2", 1, "ab")
+	zz.Assume(v1 != v2)
+	tf := &ast.Taskfile{Vars: ast.NewVars(), Env: ast.NewVars(), Tasks: ast.NewTasks(), Run: fileRun, Method: "checksum"}
+	e := &Executor{Taskfile: tf, Stdout: io.Discard, Stderr: io.Discard}
+	key := func(v string) string {
+		ct := &ast.Task{Task: "t", Run: taskRun, Location: &ast.Location{Taskfile: "/d/f.yml"}, Vars: ast.NewVars(), Env: ast.NewVars()}
+		ct.Vars.Set("V", ast.Var{Value: v})
+		h, err := e.GetHash(ct)
+		if err != nil {
+			return "error"
+		}
+		return h
+	}
+	h1, h2 := key(v1), key(v2)
+	eff := taskRun
+	if eff == "" {
+		eff = fileRun
+	}
+	switch eff {
+	case "always":
+		zz.Assert(h1 == "" && h2 == "", "run-mode/always-is-never-deduplicated")
+	case "once":
+		zz.Assert(h1 != "" && h1 != "error" && h1 == h2, "run-mode/once-has-one-key-for-all-bindings")
+	case "when_changed":
+		zz.Assert(h1 != "" && h2 != "" && h1 != "error" && h2 != "error" && h1 != h2, "run-mode/when_changed-has-a-key-per-binding")
+	}
+	if zz.Twin() {
+		zz.Assert(false, "twin")
+	}
+	zz.Reach("end")
+}
